@@ -135,3 +135,42 @@ pub fn guard<T>(f: impl FnOnce() -> T) -> Result<T, String> {
         Err(_) => Err(format!("panic: {}", last_panic())),
     }
 }
+
+/// Environment variables that colour-aware programs look at.
+pub const COLOUR_ENV: [&str; 9] = ["NO_COLOR", "CLICOLOR", "CLICOLOR_FORCE", "TERM", "COLORTERM", "CI", "FORCE_COLOR", "TERM_PROGRAM", "LS_COLORS"];
+
+/// For functions whose result may depend on nothing but their arguments: run `digest` with the colour-related
+/// environment variables removed and under two hostile settings; all three results must be equal.
+/// Call this before any worker thread exists (it changes the process environment and restores it afterwards).
+pub fn env_independence<T: PartialEq + std::fmt::Debug>(digest: impl Fn() -> T) -> Result<(), String> {
+    let saved: Vec<(&str, Option<std::ffi::OsString>)> = COLOUR_ENV.iter().map(|k| (*k, std::env::var_os(k))).collect();
+    let set = |vals: &[(&str, &str)]| {
+        for k in COLOUR_ENV {
+            std::env::remove_var(k);
+        }
+        for (k, v) in vals {
+            std::env::set_var(k, v);
+        }
+    };
+    set(&[]);
+    let base = guard(&digest);
+    let mut result = Ok(());
+    for hostile in [
+        &[("NO_COLOR", "1"), ("CLICOLOR", "0"), ("TERM", "dumb"), ("CI", "true"), ("LS_COLORS", "di=01;34")][..],
+        &[("CLICOLOR_FORCE", "1"), ("FORCE_COLOR", "3"), ("TERM", "xterm-256color"), ("COLORTERM", "truecolor"), ("TERM_PROGRAM", "vscode")][..],
+    ] {
+        set(hostile);
+        let other = guard(&digest);
+        if other != base {
+            result = Err(format!("the result depends on the environment: with {hostile:?} set it is {other:?}, with the colour-related variables removed {base:?}"));
+            break;
+        }
+    }
+    for (k, v) in saved {
+        match v {
+            Some(v) => std::env::set_var(k, v),
+            None => std::env::remove_var(k),
+        }
+    }
+    result
+}
